@@ -256,11 +256,11 @@ def dup_binders(p):
     """known finding S1 (a `let` inside `{}` is not scoped to the block): a function whose expansion binds one name twice
     may observe the leak; the reference semantics scopes blocks, so such programs are compared implementation against
     implementation only"""
+    g = [x for x, _ in p.globals]
     for f in p.fns + [p.dsp]:
-        b = binders(f.body, list(f.params))
+        b = binders(f.body, list(f.params) + g)
         if len(b) != len(set(b)):
             return True
-    g = [x for x, _ in p.globals]
     for _, e in p.globals:
         binders(e, g)
     return len(g) != len(set(g))
@@ -520,3 +520,134 @@ if __name__ == "__main__":
             print("STUCK", e)
         print(sp.sx())
         print()
+
+
+# ---------------------------------------------------------------------------------------------------------------
+# C10: hygiene. Macro bodies that bind a local around / next to a splice x argument code x use sites, all names drawn
+# from one small pool so that coincidences are frequent; every case comes as (original, binder-renamed) pair.
+
+POOL = ["y", "z", "w"]
+FRESH = "q9"
+
+
+def _v(x):
+    return Node("var", x)
+
+
+def _l(s):
+    return Node("lit", s)
+
+
+def _b(op, a, c):
+    return Node("bin", op, a, c)
+
+
+def _sp(x):
+    return Node("splice", _v(x))
+
+
+# template shapes: B = the binder under test, x = the hole. (name, builder(B), names the template itself uses besides B)
+C10_TEMPLATES = [
+    ("let-around", lambda B: Node("let", B, _l("10.0"), _b("add", _sp("x"), _v(B)))),
+    ("let-from-splice", lambda B: Node("let", B, _b("mul", _sp("x"), _l("2.0")), _b("add", _v(B), _sp("x")))),
+    ("let-then-let", lambda B: Node("let", B, _l("10.0"), Node("let", "t", _b("add", _v(B), _l("1.0")), _b("mul", _sp("x"), _v("t"))))),
+    ("tuple-pattern", lambda B: Node("lett", [B, "u"], Node("tup", [_sp("x"), _l("3.0")]), _b("add", _b("add", _v(B), _v("u")), _sp("x")))),
+    ("lambda-param", lambda B: Node("let", "f", Node("lam", [B], _b("add", _v(B), _sp("x"))), Node("app", _v("f"), [_l("5.0")]))),
+    ("let-mem", lambda B: Node("let", B, Node("mem", _sp("x"), 1), _b("add", _v(B), _sp("x")))),
+    ("splice-next-to", lambda B: Node("let", "s", _sp("x"), Node("let", B, _l("10.0"), _b("add", _v("s"), _v(B))))),
+    ("assign", lambda B: Node("let", B, _l("10.0"), Node("set", B, _b("add", _v(B), _sp("x")), _v(B)))),
+]
+
+# argument code (only pool names and time)
+C10_ARGS = [
+    ("y", lambda: _v("y")), ("z", lambda: _v("z")), ("w", lambda: _v("w")), ("now", lambda: Node("now")),
+    ("y+z", lambda: _b("add", _v("y"), _v("z"))), ("w*now", lambda: _b("mul", _v("w"), Node("now"))), ("1.5", lambda: _l("1.5")),
+]
+
+# code after the macro call at the use site (r = result of the call)
+C10_AFTER = [
+    ("r", lambda: _v("r")), ("r+y", lambda: _b("add", _v("r"), _v("y"))), ("r*z", lambda: _b("mul", _v("r"), _v("z"))),
+    ("r+w", lambda: _b("add", _v("r"), _v("w"))),
+]
+
+POOL_VALUE = {"y": "1.0", "z": "2.0", "w": "4.0"}
+
+
+def free_names(n, bound=frozenset()):
+    """free variable names of a (plain or staged) tree"""
+    k = n.kind
+    if k == "var":
+        return set() if n.a[0] in bound else {n.a[0]}
+    if k == "let":
+        return free_names(n.a[1], bound) | free_names(n.a[2], bound | {n.a[0]})
+    if k == "lett":
+        return free_names(n.a[1], bound) | free_names(n.a[2], bound | set(n.a[0]))
+    if k == "lam":
+        return free_names(n.a[1], bound | set(n.a[0]))
+    if k == "set":
+        return ({n.a[0]} - bound) | free_names(n.a[1], bound) | free_names(n.a[2], bound)
+    out = set()
+    for _, c in coregen.children(n):
+        out |= free_names(c, bound)
+    return out
+
+
+def all_names(n):
+    out = set()
+    if n.kind == "var":
+        out.add(n.a[0])
+    elif n.kind in ("let", "set"):
+        out.add(n.a[0])
+    elif n.kind in ("lett", "lam"):
+        out |= set(n.a[0])
+    for _, c in coregen.children(n):
+        out |= all_names(c)
+    return out
+
+
+def c10_case(ti, ai, bound, globals_, fi, B, B2):
+    """one (original, renamed) pair. bound = pool names bound as locals at the use site before the call,
+    globals_ = pool names bound as globals. Returns None when the use site would mention an unbound name."""
+    tname, tb = C10_TEMPLATES[ti]
+    aname, ab = C10_ARGS[ai]
+    fname, fb = C10_AFTER[fi]
+    arg, after = ab(), fb()
+    need = (free_names(arg) | free_names(after)) - {"r"}
+    if not need <= set(bound) | set(globals_):
+        return None
+
+    def build(binder):
+        m = MFn("m", ["x"], Node("quote", tb(binder)))
+        body = Node("let", "r", Node("mcall", "m", [Node("quote", arg)]), after)
+        for x in reversed(bound):
+            body = Node("let", x, _l(POOL_VALUE[x]), body)
+        dsp = Fn("dsp", [], [], F, body, False, True)
+        return SProg([("macro", m)] + [("g", x, _l(POOL_VALUE[x] + "1")) for x in globals_] + [("fn", dsp)])
+    tmpl_names = all_names(tb(B)) - {B}
+    noclash = (B not in free_names(arg) and B2 not in free_names(arg) and B2 not in tmpl_names
+               and B not in bound and B2 not in bound and B not in globals_ and B2 not in globals_)
+    return dict(orig=build(B), ren=build(B2), noclash=noclash, template=tname, arg=aname, after=fname, bound=list(bound),
+                globals=list(globals_), binder=B, new=B2,
+                why=[w for w, c in (("arg mentions binder", B in free_names(arg)), ("arg mentions new name", B2 in free_names(arg)),
+                                    ("template uses new name", B2 in tmpl_names), ("use site binds binder", B in bound or B in globals_),
+                                    ("use site binds new name", B2 in bound or B2 in globals_)) if c])
+
+
+def c10_all():
+    """the whole small scope, in a fixed order"""
+    import itertools
+    subsets = [s for k in range(4) for s in itertools.combinations(POOL, k)]
+    for ti in range(len(C10_TEMPLATES)):
+        for ai in range(len(C10_ARGS)):
+            for bound in subsets:
+                for gl in [(), ("w",), ("y",)]:
+                    if set(gl) & set(bound):
+                        continue
+                    for fi in range(len(C10_AFTER)):
+                        for B in POOL:
+                            for B2 in POOL + [FRESH]:
+                                if B2 == B:
+                                    continue
+                                c = c10_case(ti, ai, bound, gl, fi, B, B2)
+                                if c is not None:
+                                    yield c
